@@ -24,6 +24,30 @@ PROP = "C05"
 KEY_LATEST = "C05:latest-is-lexicographic-max"
 KEY_AGG = "C05:aggregate-order-lexicographic"
 KEY_MAP = "C05:map-placeholder-lexicographic-max"
+KEY_REPL_CARRIED = "C05:replicated-carried-producer-unknown-at-next-iteration"
+
+
+def classify_exception(shape, exc):
+    """KEY_REPL_CARRIED iff the shape has a loop binding whose producer is a replicated looped component and
+    the exception is the loader's 'unknown reference' complaint naming exactly that un-rewritten binding
+    (stage<consumer stage>.<binding>) on behalf of a consumer instance of an iteration k >= 1."""
+    import re
+    if type(exc).__name__ != "FlowIRReferenceToUnknownComponent" and "Unknown reference(s)" not in str(exc):
+        return None
+    m = re.search(r"Unknown reference\(s\) \['stage(\d+)\.([^']+)'\] by \"stage(\d+)\.(\d+)#([^\"]+)\"", str(exc))
+    if not m:
+        return None
+    ref_stage, ref_name, c_stage, it, consumer = int(m.group(1)), m.group(2), int(m.group(3)), int(m.group(4)), m.group(5)
+    by_name = {c["name"]: c for c in shape["body"]}
+    b = shape["bindings"].get(ref_name)
+    if not b or not b["loop"] or it < 1 or consumer not in by_name:
+        return None
+    prod = by_name.get(b["loop"]["comp"])
+    prod_replicated = prod is not None and (prod.get("replicate") is not None or prod.get("follows") is not None)
+    uses = any(bd["binding"] == ref_name for bd in by_name[consumer]["binds"])
+    if prod_replicated and uses and ref_stage == c_stage == shape["S"] + by_name[consumer]["off"]:
+        return KEY_REPL_CARRIED
+    return None
 
 
 def lex_max(k):
@@ -326,9 +350,9 @@ class ShapeRun:
 def class_key(shape):
     body = shape["body"]
     nrep = [c["replicate"] for c in body if c.get("replicate") is not None]
-    return "S%d|body%d.maxoff%d|rep%s%s|carried%d|inv%d|cons%s|cond%s%s" % (
+    return "S%d|body%d.maxoff%d|rep%s%s%s|carried%d|inv%d|cons%s|cond%s%s" % (
         shape["S"], len(body), max(c["off"] for c in body), nrep[0] if nrep else "-",
-        "v" if shape.get("repl_via_var") else "",
+        "v" if shape.get("repl_via_var") else "", "+carried" if shape.get("repl_carried") else "",
         sum(1 for b in shape["bindings"].values() if b["loop"]),
         sum(1 for b in shape["bindings"].values() if not b["loop"]),
         ",".join(sorted(set(c["method"] for c in shape["consumers"]))),
@@ -348,9 +372,22 @@ def run_job(job, w):
         run = ShapeRun(shape, w, only_clause=job.get("only_clause"))
         try:
             ok = run.run()
-        except Exception:
+        except Exception as exc:
             if job.get("only_clause") not in (None, "exception"):
                 raise
+            key = classify_exception(shape, exc)
+            if key is not None:
+                w.count("classified_" + key.split(":", 1)[1])
+                w.violation("exception while unrolling shape %d: %s" % (shape["idx"], str(exc)[-300:]),
+                            {"shape": shape, "clause": "exception", "detail": traceback.format_exc()[-3000:]},
+                            finding_key=key)
+                w.evaluated()
+                w.count("shapes_run")
+                w.count("shapes_stopped_by_known_exception")
+                import shutil
+                os.chdir("/")
+                shutil.rmtree(getattr(run, "root", "") or "/nonexistent", ignore_errors=True)
+                continue
             # the generator only emits documents of the supported family: a crash while unrolling is a
             # violation of "the workflow contains the instances 0..k" only if we can name the iteration;
             # we report it as inconclusive-with-trace unless it is reproducible (it is deterministic, so
@@ -378,7 +415,7 @@ if "--worker" in sys.argv:
 
 def main():
     tier = vlib.tier()
-    K, n_shapes = (12, 64) if tier == "quick" else (30, 304)
+    K, n_shapes = (12, 64) if tier == "quick" else (30, 352)   # 1 shape in 8 carries a replicated producer (known finding stops it at k=1)
     c = vlib.Check(PROP, "exploration",
                    rule="one case = one generated DoWhile package shape unrolled to K further iterations with the "
                         "oracle evaluated after EVERY iteration; distinct = distinct structural classes (import stage, "
@@ -387,8 +424,9 @@ def main():
                    assumptions=[
                        "names are mutually substring-free and every reference occurs once per argument string "
                        "(textual substitution of spellings belongs to C03/C10)",
-                       "loop-carried producers sit in a body stage <= their consumer's and are not replicated; "
-                       "replication inside the loop is the replicate -> [follower] -> aggregate chain only",
+                       "loop-carried producers sit in a body stage <= their consumer's; a replicated producer is only carried "
+                       "into the replicated head of the same chain; replication inside the loop is the "
+                       "replicate -> [follower] -> aggregate chain only",
                        ":loopref/:loopoutput are only used by consumers outside the loop; one DoWhile per package",
                        "outputs of instances are materialised by the harness at stages/stage<N>/<instance>/ "
                        "(out.stdout, res.txt) as the engine would have produced them",
